@@ -147,6 +147,7 @@ def program(rng):
     def instances_of(tp):
         return [n for n in order if tp in ancestors(insts[n]["cls"])]
     stmts = []
+    late = []
     n_steps = rng.randint(3, 10)
     ni = nv = 0
     for _ in range(n_steps):
@@ -173,7 +174,9 @@ def program(rng):
                     if kind == "free" and fn not in fields:
                         val = F(rng.randint(0, 12))
                         fields[fn] = val
-                        stmts.append(f"{name}.{fn} == {num_text(val)};")
+                        # half of the pins come at the very end: until then the field is a variable with its own bounds,
+                        # and a derived variable over several instances must not take it for a constant
+                        (late if rng.random() < 0.5 else stmts).append(f"{name}.{fn} == {num_text(val)};")
         else:
             tps = [c["name"] for c in classes if instances_of(c["name"])]
             tp = rng.choice(tps)
@@ -269,7 +272,7 @@ def program(rng):
             stmts.append(f"{c[1]} {'==' if c[3] else '!='} {c[2]};")
         elif c[0] == "elit":
             stmts.append(f"{c[1]} {'==' if c[3] else '!='} \"{c[2]}\";")
-    text = "\n".join(lines + stmts) + "\n"
+    text = "\n".join(lines + stmts + late) + "\n"
     meta = {"kind": "oo", "insts": insts, "order": order, "vars": variables, "cons": cons,
             "classes": {c["name"]: {"supers": c["supers"]} for c in classes}, "enums": enums}
     return text, meta
